@@ -108,3 +108,81 @@ def c11(ctx):
         lab = _label(cfg)
         out.append((lab, R.rule_E1(ctx, prog, lab)))
     return out
+
+
+# ------------------------------------------------------------------ engine C/A based properties
+ROWOPS = {'_mzd_row_swap', 'mzd_row_add_offset', 'mzd_row_clear_offset', 'mzd_combine_even_in_place', 'mzd_combine_even',
+          '_mzd_apply_p_right_even', 'mzd_write_col_to_rows_blockd', 'mzd_xor_bits', 'mzd_clear_bits', 'mzd_and_bits',
+          'mzd_write_bit', 'mzd_col_swap_in_rows', 'mzd_col_swap'}
+MOVERS = {'mzd_copy', 'mzd_copy_row', 'mzd_set_ui', 'mzd_submatrix', 'mzd_concat', 'mzd_stack', 'mzd_extract_u',
+          'mzd_extract_l', '_mzd_add', 'mzd_combine_even', 'mzd_combine_even_in_place', 'mzd_randomize',
+          'mzd_randomize_custom'}
+
+
+@prop('C09', level='other',
+      explanation=('C1: every store into the data words of a caller-visible matrix (every function, every configuration) is '
+                   'classified by form (how the changed bits are confined) and position (symbolic, relative to the destination width) '
+                   'and must be discharged by a mask that is the destination\'s valid-bit mask, by being provably interior, by a '
+                   'well-formed unrolled tail family whose last member is masked, by a frozen kernel contract (counter and final masked '
+                   'store re-checked structurally), by whole-word XOR from lookup tables that are only ever written by table builders '
+                   '(C2 at every call site), or by a reasoned exception. C3/C3b: observers mask the last word. A1: no write effect on '
+                   'const operands through casts and callees. A2: header fields written only by the two constructors.'),
+      not_decided='that results equal those on standalone copies (value level); index arithmetic inside bit-range primitives')
+def c09(ctx):
+    from . import masks as M, const_rules as CR
+    out = []
+    for cfg in _configs(ctx, extra=[dict(frontend.host_config(), sse2=0)]):
+        prog = _prog(ctx, cfg)
+        lab = _label(cfg)
+        out.append((lab, M.rule_C1(ctx, prog, lab)))
+        out.append((lab, M.rule_C2_callers(ctx, prog, lab)))
+        out.append((lab, M.rule_C3(ctx, prog, lab)))
+        out.append((lab, CR.rule_A1(ctx, prog, lab)))
+        out.append((lab, CR.rule_A2(ctx, prog, lab)))
+    return out
+
+
+@prop('C17', level='other',
+      explanation=('C3: in mzd_equal, mzd_cmp, mzd_is_zero, mzd_first_zero_row and mzd_find_pivot every loaded word whose position is not '
+                   'provably interior is &-ed with the operand\'s valid-bit mask before it reaches the verdict (one-word rows included). '
+                   'C3b: mzd_cmp is two-sided on each compared quantity; dimensions are compared before any word is read.'),
+      not_decided='LSB-first ordering inside a word, transitivity, pivot choice (value level)')
+def c17(ctx):
+    from . import masks as M
+    out = []
+    for cfg in _configs(ctx):
+        prog = _prog(ctx, cfg)
+        lab = _label(cfg)
+        out.append((lab, M.rule_C3(ctx, prog, lab)))
+        out.append((lab, M.rule_C3b(ctx, prog, lab)))
+    return out
+
+
+@prop('C13', level='other',
+      explanation=('C1 restricted to the row/column primitives and the column-permutation kernel: row swap, row add from offset, row clear '
+                   'from offset, combine kernels, bit-range primitives, apply_p_right strips - no store can touch bits past the last column '
+                   '(kernel contracts re-check the counter initialisation and the final masked/revert store).'),
+      not_decided='the swap arithmetic itself and the permutation order (F4/B1 rules are added separately)')
+def c13(ctx):
+    from . import masks as M
+    out = []
+    for cfg in _configs(ctx, extra=[dict(frontend.host_config(), sse2=0)]):
+        prog = _prog(ctx, cfg)
+        lab = _label(cfg)
+        out.append((lab, M.rule_C1(ctx, prog, lab, only=ROWOPS, rule='C1-rowops')))
+    return out
+
+
+@prop('C08', level='other',
+      explanation=('C1 restricted to the data movers (copy, copy_row, set_ui, submatrix both paths, concat, stack, extract_u/l, the nine '
+                   'routes of _mzd_add, combine_even): every store is masked or interior for its destination. A1: sources unchanged.'),
+      not_decided='that any transpose kernel transposes; bit positions in general (value level)')
+def c08(ctx):
+    from . import masks as M, const_rules as CR
+    out = []
+    for cfg in _configs(ctx, extra=[dict(frontend.host_config(), sse2=0)]):
+        prog = _prog(ctx, cfg)
+        lab = _label(cfg)
+        out.append((lab, M.rule_C1(ctx, prog, lab, only=MOVERS, rule='C1-movers')))
+        out.append((lab, CR.rule_A1(ctx, prog, lab)))
+    return out
